@@ -1248,7 +1248,7 @@ func (s *Service) queryEventExpire(v interface{}) {
 	vhook("qx.enter", qe.r.rname)
 	qe.sub.Drain()
 	vhook("qx.drained", qe.r.rname)
-	s.runWith(qe.r.Group(), func() {
-		qe.cb(nil)
-	})
+	// Let the listener end the query event, after it has passed on the
+	// requests it has received so far.
+	close(qe.done)
 }
